@@ -2,9 +2,9 @@ PROP = dict(
         coq="Properties/C09.v",
         workloads=[
             dict(name="liquidation-sweeps", go_test="TestC09", runner="C09",
-                 env=dict(quick=dict(VERIF_CASES=240), thorough=dict(VERIF_CASES=6000))),
+                 env=dict(quick=dict(VERIF_CASES=240), thorough=dict(VERIF_CASES=4500))),
             dict(name="borrow-liquidation", go_test="TestC09Borrow", runner="C09-borrow",
-                 env=dict(quick=dict(VERIF_CASES=60), thorough=dict(VERIF_CASES=2500))),
+                 env=dict(quick=dict(VERIF_CASES=60), thorough=dict(VERIF_CASES=1000))),
         ],
         rule="case = (generation V1|V2, 1-2 apps enabled for liquidation, batch 1-5 (0 is rejected by the module's param validation), 1-12 vaults over 4 extended pairs / 2 collateral "
              "assets (decimals 10^6, 10^8) with ratios at, just above and far above the liquidation ratio, then 6-25 blocks of the REAL "
@@ -23,8 +23,8 @@ PROP = dict(
              "+-1, +-2, +-1000 units in the last place and far from each of the 8 thresholds the code could apply (both bases, the 4 rounded products, 2 truncated "
              "products; 3 of 5 aimed at the applicable one), ordinary price moves incl. inactive prices, MsgLiquidateInternalKeeper liq type 1 on open / liquidated "
              "/ unknown ids and type 2, new borrows (inserted inside the swept list), repay-and-close, draw / repay, time gaps up to a year (interest), kill switch, "
-             "whitelisting Dutch / English toggles, liquidity withdrawal from a pool, MsgLiquidateExternalKeeper with and without reserve funds; 6 directed cases "
-             "run last (one borrow of each bridge kind moved to -1 / 0 / +1 of each of its three candidate thresholds; the batch sizes 2^63, 2^64-1, 2^63-1 through "
+             "whitelisting Dutch / English toggles, liquidity withdrawal from a pool, MsgLiquidateExternalKeeper with and without reserve funds; 8 directed cases "
+             "run last (the witnesses of the findings C09-F5 pool-short and C09-F6 reserve-index-zero; one borrow of each bridge kind moved to -1 / 0 / +1 of each of its three candidate thresholds; the batch sizes 2^63, 2^64-1, 2^63-1 through "
              "the governance parameter-change handler followed by blocks over unsafe borrows). Per visit the harness dumps the RAW inputs (amounts, interest as that "
              "visit computes it on a shadow branch advanced like the real sweep, prices, decimals, both thresholds of the collateral asset, e-mode flag, bridged coin, "
              "first transit denom, both transit thresholds, whitelisting flags, pool balances); the extracted model makes the case split and the decision",
